@@ -32,7 +32,7 @@ man = {
     "hooks": {
         "guard": "SOCKPUPPET_VERIF",
         "enable": "checks compile /repo/src/*.cpp themselves (tools/vlib.py build_impl) and add -DSOCKPUPPET_VERIF; no source hook is needed so far: all observation and perturbation is by link-time interposition at the libc boundary from the harness executable",
-        "baseline_off_cmd": "cmake -S /repo -B /repo/_build -G Ninja && cmake --build /repo/_build && ctest --test-dir /repo/_build -j8 --timeout 900",
+        "baseline_off_cmd": "cmake -S /repo -B /repo/_build -G Ninja && cmake --build /repo/_build && ctest --test-dir /repo/_build/test -j8 --timeout 900",
         "source_commits": hooks_commits,
         "add_only": True,
     },
